@@ -149,12 +149,27 @@ theorem rinv_applyOp {k : K} (h : RInv k) (op : KOp) : RInv (applyOp op k) := by
       · rename_i p already hl hal
         have h' : RInv { k with latches := k.latches.set l (p, true) } := rinv_congr h rfl
         exact rinv_rejectP h' _ _
-  | addReactions p cap f g => exact rinv_addReactions h p cap f g
+  | addReactions p cap f g =>
+    simp only [applyOp]
+    split
+    · exact rinv_addReactions h p cap f g
+    · exact h
   | popJob =>
     simp only [applyOp, popJob]
     split
     · exact h
-    · split <;> exact rinv_congr h rfl
+    · exact rinv_congr h (popJobQ_proms k)
+  | asyncStart => exact rinv_congr h rfl
+  | await ar p =>
+    simp only [applyOp, awaitOp]
+    split
+    · exact rinv_congr (rinv_addReactions h p none _ _) rfl
+    · exact h
+  | asyncDone ar =>
+    simp only [applyOp, asyncDone]
+    split
+    · exact rinv_congr h rfl
+    · exact h
   | leaveAbrupt => exact rinv_congr h rfl
 
 theorem rinv_reach {k : K} (h : Reach k) : RInv k := by
